@@ -210,6 +210,57 @@ def _classify_def(prog, f, value, pname, final):
     return None
 
 
+def _def_kinds(prog, f, value, pname, final, row, depth=0):
+    """[(kind, text)] of a definition of the requested-state variable; a call
+    of a resolvable helper with the `state` argument is followed into the
+    helper: every `return` it can reach for this row counts"""
+    k = _classify_def(prog, f, value, pname, final)
+    if k is not None or depth > 2:
+        return [(k, '')]
+    if isinstance(value, ast.Call) and len(value.args) == 1 and \
+            not value.keywords and isinstance(value.args[0], ast.Name) and \
+            value.args[0].id == pname:
+        h = prog.resolve_call(f, value)
+        if h is None:
+            return [(None, '')]
+        params = list(h.params)
+        static = any(unparse(d) in ('staticmethod',)
+                     for d in h.node.decorator_list)
+        if h.cls is not None and not static and params:
+            params = params[1:]
+        if len(params) != 1:
+            return [(None, '')]
+        hp = params[0]
+        hg = cfg_of(h)
+        if tainted_by_rebinding(hg, hp):
+            return [(None, '')]
+
+        def transfer(node, edge, st):
+            if node.kind == 'test' and edge.label in 'TF':
+                if edge.label not in _row_edge(h, node.ast, hp, row):
+                    return None
+            return st
+
+        def is_ret(nid):
+            n = hg.nodes[nid]
+            return nid in (hg.exit.id, hg.raise_.id) or (
+                n.kind == 'stmt' and isinstance(n.ast, ast.Return))
+        ex = Exploration(hg, hg.entry.id, 0, transfer, stop=is_ret)
+        out = []
+        for t in ex.terminals:
+            n = hg.nodes[t.node]
+            if t.node == hg.raise_.id:
+                continue
+            if t.node == hg.exit.id or n.ast.value is None:
+                out.append((('const', None), '%s returns nothing' % h.qual))
+                continue
+            for kk, txt in _def_kinds(prog, h, n.ast.value, hp, final, row,
+                                      depth + 1):
+                out.append((kk, '%s: %s' % (h.qual, short(n.ast, 50))))
+        return out or [(None, '')]
+    return [(None, '')]
+
+
 def normalisation(prog, f, g, head):
     """(parameter name, requested-state variable, tainted node ids)"""
     pname = 'state'
@@ -242,6 +293,16 @@ def normalisation(prog, f, g, head):
                         dep = True
         if dep:
             cand.setdefault(names[0], []).append(n)
+    if len(cand) > 1:
+        copied = set()
+        for nm, nodes in cand.items():
+            for n in nodes:
+                if isinstance(n.ast.value, ast.Name) and \
+                        n.ast.value.id in cand and n.ast.value.id != nm:
+                    copied.add(n.ast.value.id)
+        for nm in copied:
+            if len(cand) > 1:
+                cand.pop(nm, None)
     if len(cand) != 1:
         raise AnalysisError('UNRECOGNISED-IDIOM %s: expected one variable '
                             'holding the normalised requested states, found %s'
@@ -262,6 +323,14 @@ def r15_1(prog, rep, rid='R15.1'):
         rep.stat('cfg_nodes', len(g.nodes))
         head = wait_loop(f, g)
         pname, var, tainted = normalisation(prog, f, g, head)
+        tracked = set()
+        for n in g.nodes:
+            if n.kind == 'stmt' and isinstance(n.ast, ast.Assign) and \
+                    n.id not in g.loop_body[head] and \
+                    len(n.ast.targets) == 1 and \
+                    isinstance(n.ast.targets[0], ast.Name):
+                tracked.add(n.ast.targets[0].id)
+        tracked.discard(pname)
 
         for row, rowtext in ROWS:
             def transfer(node, edge, st, row=row):
@@ -271,10 +340,21 @@ def r15_1(prog, rep, rid='R15.1'):
                         node.id not in tainted:
                     if edge.label not in _row_edge(f, node.ast, pname, row):
                         return None
-                if var in stores_of(node):
-                    return node.id
+                names = stores_of(node)
+                if names:
+                    d = dict(st)
+                    a = node.ast
+                    src = node.id
+                    if node.kind == 'stmt' and isinstance(a, ast.Assign) and \
+                            isinstance(a.value, ast.Name) and \
+                            a.value.id != pname and a.value.id in d:
+                        src = d[a.value.id]       # x = y: x is what y is
+                    for nm in names:
+                        if nm in tracked:
+                            d[nm] = src
+                    return tuple(sorted(d.items()))
                 return st
-            ex = Exploration(g, g.entry.id, -1, transfer,
+            ex = Exploration(g, g.entry.id, (), transfer,
                              stop=lambda nid: nid in (head, g.exit.id,
                                                       g.raise_.id))
             rep.stat('paths', ex.states)
@@ -284,22 +364,25 @@ def r15_1(prog, rep, rid='R15.1'):
                                     'is not reachable when %s' % (f.where,
                                                                   rowtext))
             wrong, unknown = [], []
+            good = {'falsy': ('final',), 'single': ('single', 'either'),
+                    'list': ('list', 'either')}[row]
             for t in at_head:
-                if t.state < 0:
+                did = dict(t.state).get(var, -1)
+                t.state = did
+                if did < 0:
                     wrong.append((t, '<undefined>', 'undefined'))
                     continue
-                dn = g.nodes[t.state]
+                dn = g.nodes[did]
                 if dn.kind != 'stmt' or not isinstance(dn.ast, ast.Assign):
                     unknown.append(dn)
                     continue
-                k = _classify_def(prog, f, dn.ast.value, pname, final)
-                if k is None:
+                ks = _def_kinds(prog, f, dn.ast.value, pname, final, row)
+                if any(k is None for k, _ in ks):
                     unknown.append(dn)
                     continue
-                good = {'falsy': ('final',), 'single': ('single', 'either'),
-                        'list': ('list', 'either')}[row]
-                if k not in good:
-                    wrong.append((t, short(dn.ast, 60), k))
+                bad = [(k, txt) for k, txt in ks if k not in good]
+                if bad:
+                    wrong.append((t, bad[0][1] or short(dn.ast, 60), bad[0][0]))
             if unknown and not wrong:
                 raise AnalysisError(
                     'UNRECOGNISED-IDIOM %s: the definition `%s` of %r that '
@@ -358,6 +441,71 @@ def r15_1(prog, rep, rid='R15.1'):
                   'although the requested state was reached long before'
                   % (cname, mname, 'AGENT_EXECUTING' if what == 'task'
                      else 'PMGR_ACTIVE', what))
+
+
+# ------------------------------------------------------------------------------
+# predicates extracted into helpers
+#
+def substitute(expr, mapping):
+    import copy
+
+    class T(ast.NodeTransformer):
+        def visit_Name(self, n):
+            if isinstance(n.ctx, ast.Load) and n.id in mapping:
+                return copy.deepcopy(mapping[n.id])
+            return n
+    return T().visit(copy.deepcopy(expr))
+
+
+def inline_pred(prog, f, call):
+    """the boolean expression a call stands for, if the callee is a resolvable
+    function whose body is a single `return <expr>` over its parameters (which
+    are replaced by the arguments); else None"""
+    if not isinstance(call, ast.Call) or call.keywords or \
+            any(isinstance(a, ast.Starred) for a in call.args):
+        return None
+    h = prog.resolve_call(f, call)
+    if h is None or h is f:
+        return None
+    stmts = [x for x in h.node.body
+             if not (isinstance(x, ast.Expr) and
+                     isinstance(x.value, ast.Constant))]
+    if len(stmts) != 1 or not isinstance(stmts[0], ast.Return) or \
+            stmts[0].value is None:
+        return None
+    a = h.node.args
+    if a.vararg or a.kwarg or a.kwonlyargs:
+        return None
+    params = [x.arg for x in a.posonlyargs + a.args]
+    static = any(unparse(d) == 'staticmethod' for d in h.node.decorator_list)
+    if h.cls is not None and not static and params and \
+            isinstance(call.func, ast.Attribute):
+        params = params[1:]
+    if len(params) != len(call.args):
+        return None
+    body = stmts[0].value
+    free = {n.id for n in walk(body) if isinstance(n, ast.Name)} - set(params)
+    if 'self' in free or 'cls' in free:
+        return None
+    return substitute(body, dict(zip(params, call.args)))
+
+
+def truth3(expr, known):
+    """three-valued truth of a boolean expression: known(atom) -> True /
+    False / None"""
+    if isinstance(expr, ast.UnaryOp) and isinstance(expr.op, ast.Not):
+        v = truth3(expr.operand, known)
+        return None if v is None else not v
+    if isinstance(expr, ast.BoolOp):
+        vals = [truth3(v, known) for v in expr.values]
+        if isinstance(expr.op, ast.And):
+            if any(v is False for v in vals):
+                return False
+            return True if all(v is True for v in vals) else None
+        if any(v is True for v in vals):
+            return True
+        return False if all(v is False for v in vals) else None
+    return known(expr)
 
 
 # ------------------------------------------------------------------------------
@@ -472,6 +620,7 @@ def loop_has_infinite_path(prog, f, g, head, assume, final, tname):
     Returns (witness literals | None, number of product states)"""
     body = g.loop_body[head] | {head}
     aliases = _state_aliases(f, g, head)
+    preds = {}
 
     def transfer(node, edge, st):
         if edge.label == 'exc':
@@ -483,6 +632,17 @@ def loop_has_infinite_path(prog, f, g, head, assume, final, tname):
                 k = _final_atom(prog, f, a, final, aliases)
                 if k and (k == 1) != want:
                     return None
+                if not k and isinstance(a, ast.Call):
+                    if id(a) not in preds:
+                        preds[id(a)] = inline_pred(prog, f, a)
+                    body = preds[id(a)]
+                    if body is not None:
+                        def known(x):
+                            kk = _final_atom(prog, f, x, final, aliases)
+                            return None if not kk else kk == 1
+                        tv = truth3(body, known)
+                        if tv is not None and tv != want:
+                            return None
             if assume == 'timeout':
                 tv = _timeout_atom(f, a, tname)
                 if tv is not None and tv != want:
@@ -610,7 +770,7 @@ def _augments_with_final(prog, f, var, final):
     return False
 
 
-def _unknown_loop_tests(f, g, head):
+def _unknown_loop_tests(f, g, head, prog=None):
     """tests inside the loop which call something the recogniser cannot look
     into (a helper deciding about the end of the wait)"""
     out = []
@@ -620,6 +780,8 @@ def _unknown_loop_tests(f, g, head):
         for c in calls_in(n.ast):
             d = dotted(c.func)
             last = d.split('.')[-1] if d else ''
+            if prog is not None and inline_pred(prog, f, c) is not None:
+                continue
             if last in ('is_set', 'isinstance', 'len', 'time', 'get',
                         '_task_state_value', '_pilot_state_value', 'min',
                         'max', 'float', 'int', 'bool'):
@@ -654,7 +816,7 @@ def r15_2(prog, rep, rid='R15.2'):
                        'the awaited %s(s) are final' % (f.qual, what)
                 if wit is not None:
                     pname, var, _ = normalisation(prog, f, g, head)
-                    unk = _unknown_loop_tests(f, g, head)
+                    unk = _unknown_loop_tests(f, g, head, prog)
                     if _augments_with_final(prog, f, var, final) or unk:
                         raise AnalysisError(
                             'UNRECOGNISED-IDIOM %s: the polling loop has no '
@@ -722,7 +884,7 @@ def _is_state_read(value):
 
 def r15_3(prog, rep, rid='R15.3'):
     rep.rule(rid, 'every return of the wait functions returns the current '
-             'state(s) of the awaited entities', minimum=10)
+             'state(s) of the awaited entities', minimum=6)
     for rel, cname, mname, what in ANCHORS:
         f = prog.method(rel, cname, mname)
         rep.saw(f)
@@ -733,8 +895,14 @@ def r15_3(prog, rep, rid='R15.3'):
         if not rets:
             raise AnalysisError('UNRECOGNISED-IDIOM %s: no return statement'
                                 % f.where)
+        alts = []
         for n in rets:
-            v = n.ast.value
+            vals = [n.ast.value]
+            while any(isinstance(x, ast.IfExp) for x in vals):
+                vals = [y for x in vals for y in (
+                    [x.body, x.orelse] if isinstance(x, ast.IfExp) else [x])]
+            alts += [(n, x) for x in vals]
+        for n, v in alts:
             okay, why = None, ''
             if v is None or isinstance(v, ast.Constant):
                 okay, why = False, 'returns %s' % (
@@ -785,10 +953,11 @@ def r15_3(prog, rep, rid='R15.3'):
                 raise AnalysisError('UNRECOGNISED-IDIOM %s: cannot relate the '
                                     'returned value `%s` to a state read (%s)'
                                     % (f.where, short(n.ast, 60), why))
+            cons = n.ast if v is n.ast.value else 'return %s' % unparse(v)
             rep.check(okay, rid, f,
                       '%s: `%s` returns the current state' % (f.qual,
-                                                              short(n.ast, 50)),
-                      construct=n.ast,
+                                                              short(cons, 50)),
+                      construct=cons,
                       message='%s: %s - the caller is told a state that is '
                       'not the actual state of the %s' % (f.qual, why, what),
                       loc=f.loc(n.ast),
@@ -806,12 +975,38 @@ class Uneval(Exception):
     pass
 
 
+def single_assign(f, name):
+    """value expression of a local name that is assigned exactly once in the
+    function (and is neither a parameter nor a loop / with / except target)"""
+    if name in f.params:
+        return None
+    vals = []
+    for n in walk(f.node):
+        if isinstance(n, ast.Assign):
+            for t in n.targets:
+                if name in stores_in_target(t):
+                    if not isinstance(t, ast.Name):
+                        return None
+                    vals.append(n.value)
+        elif isinstance(n, (ast.AugAssign, ast.AnnAssign, ast.NamedExpr)):
+            if name in stores_in_target(n.target):
+                return None
+        elif isinstance(n, (ast.For, ast.comprehension)):
+            if name in stores_in_target(n.target):
+                return None
+        elif isinstance(n, ast.withitem) and n.optional_vars is not None:
+            if name in stores_in_target(n.optional_vars):
+                return None
+    return vals[0] if len(vals) == 1 else None
+
+
 class StateEval:
     """evaluates an expression for one concrete entity state; `is_state(e)`
     tells which sub-expressions denote that state, `names` binds local names
     to concrete values; state value tables are folded from states.py"""
 
-    def __init__(self, prog, f, is_state, names=None):
+    def __init__(self, prog, f, is_state, names=None, resolve=None):
+        self.resolve = resolve
         self.prog = prog
         self.f = f
         self.is_state = is_state
@@ -836,6 +1031,10 @@ class StateEval:
         v = self._folded[k]
         if v is not UNKNOWN:
             return v
+        if isinstance(e, ast.Name) and self.resolve is not None:
+            d = self.resolve(e.id)
+            if d is not None:
+                return self.ev(d)
         try:
             if isinstance(e, ast.Call):
                 fn = dotted(e.func).split('.')[-1]
@@ -852,6 +1051,24 @@ class StateEval:
                 return self.ev(e.value)[self.ev(e.slice)]
             if isinstance(e, (ast.List, ast.Tuple, ast.Set)):
                 return [self.ev(x) for x in e.elts]
+            if isinstance(e, (ast.ListComp, ast.GeneratorExp, ast.SetComp)) \
+                    and len(e.generators) == 1 and \
+                    isinstance(e.generators[0].target, ast.Name):
+                gen = e.generators[0]
+                out = []
+                tn = gen.target.id
+                saved = self.names.get(tn, Uneval)
+                try:
+                    for item in self.ev(gen.iter):
+                        self.names[tn] = item
+                        if all(self.ev(c) for c in gen.ifs):
+                            out.append(self.ev(e.elt))
+                finally:
+                    if saved is Uneval:
+                        self.names.pop(tn, None)
+                    else:
+                        self.names[tn] = saved
+                return out
             if isinstance(e, ast.UnaryOp) and isinstance(e.op, ast.Not):
                 return not self.ev(e.operand)
             if isinstance(e, ast.BinOp) and isinstance(e.op, (ast.Add,
@@ -1005,12 +1222,22 @@ def r15_4(prog, rep, rid='R15.4'):
             raise AnalysisError('UNRECOGNISED-IDIOM %s: no statement keeps '
                                 'entities on the check list of the polling '
                                 'loop' % f.where)
-        for evar, atoms, site in keeps:
+        for evar, atoms0, site in keeps:
+            atoms = []
+            for atom, pol in atoms0:
+                body = inline_pred(prog, f, atom)
+                if body is not None:
+                    atoms += _conj_atoms(body, pol)
+                else:
+                    atoms.append((atom, pol))
+
             def is_state(e, evar=evar):
                 return isinstance(e, ast.Attribute) and \
                     e.attr in STATE_ATTRS and \
                     isinstance(e.value, ast.Name) and e.value.id == evar
-            ev = StateEval(prog, f, is_state)
+            ev = StateEval(prog, f, is_state,
+                           resolve=lambda n: single_assign(f, n)
+                           if n not in (evar, var) else None)
             # names the atoms read
             relevant = []
             minvars = {}
@@ -1252,7 +1479,7 @@ MUTATIONS = [
     dict(name='R15.3 Pilot.wait: state sampled before the loop is returned',
          rules=('R15.3',), edits=[
         (_P, "        start_wait = time.time()\n        while self.state not in states and \\\n",
-             "        start_wait = time.time()\n        current = self.state\n        while self.state not in states and \\\n"),
+             "        current    = None\n        start_wait = time.time()\n        if timeout is None or timeout > 0:\n            current = self.state\n        while self.state not in states and \\\n"),
         (_P, "            if self._pmgr._terminate.is_set():\n                break\n\n        return self.state\n",
              "            if self._pmgr._terminate.is_set():\n                break\n\n        return current\n")]),
     dict(name='R15.4 wait_tasks: requested state itself keeps waiting (<=)',
@@ -1272,6 +1499,36 @@ MUTATIONS = [
          rules=('R15.4',), edits=[
         (_PM, "                               if pilot.state not in states and\n",
               "                               if pilot.state in states and\n")]),
+    dict(name='R15.1 normalisation helper returns [None] for the default',
+         rules=('R15.1',), edits=[
+        (_P, _P_NORM, "        states = self._wait_states(state)\n"),
+        (_P, "    def wait(self, state=None, timeout=None):\n",
+             "    @staticmethod\n    def _wait_states(state):\n\n"
+             "        if not isinstance(state, list): return [state]\n"
+             "        if not state                  : return rps.FINAL\n"
+             "        return state\n\n\n"
+             "    def wait(self, state=None, timeout=None):\n")]),
+    dict(name='R15.4 pending predicate in a static helper uses <=',
+         rules=('R15.4',), edits=[
+        (_TM, "                if task.state not in rps.FINAL and \\\n" + _CMP,
+              "                if self._wait_pending(task, check_state_val):"),
+        (_TM, "    def wait_tasks(self, uids=None, state=None, timeout=None):\n",
+              "    @staticmethod\n    def _wait_pending(task, check_state_val):\n\n"
+              "        return task.state not in rps.FINAL and \\\n"
+              "               rps._task_state_values[task.state] <= check_state_val\n\n\n"
+              "    def wait_tasks(self, uids=None, state=None, timeout=None):\n")]),
+    dict(name='R15.2 pending predicate in a static helper forgets the final test',
+         rules=('R15.2',), edits=[
+        (_TM, "                if task.state not in rps.FINAL and \\\n" + _CMP,
+              "                if self._wait_pending(task, check_state_val):"),
+        (_TM, "    def wait_tasks(self, uids=None, state=None, timeout=None):\n",
+              "    @staticmethod\n    def _wait_pending(task, check_state_val):\n\n"
+              "        return rps._task_state_values[task.state] < check_state_val\n\n\n"
+              "    def wait_tasks(self, uids=None, state=None, timeout=None):\n")]),
+    dict(name='R15.3 wait_pilots conditional return yields the stale local',
+         rules=('R15.3',), edits=[
+        (_PM, "        if ret_list: return states\n        else       : return states[0]\n\n\n    # --------------------------------------------------------------------------\n    #\n    def _fail_missing_pilots(self):",
+              "        return states if ret_list else state\n\n\n    # --------------------------------------------------------------------------\n    #\n    def _fail_missing_pilots(self):")]),
 ]
 
 SILENT = [
@@ -1315,4 +1572,26 @@ SILENT = [
     dict(name='Task.wait: result through a local after the loop', edits=[
         (_T, "            if self._tmgr._terminate.is_set():\n                break\n\n        return self.state\n",
              "            if self._tmgr._terminate.is_set():\n                break\n\n        ret = self.state\n        return ret\n")]),
+    dict(name='corpus r1: normalisation in a static helper with early returns', edits=[
+        (_P, _P_NORM, "        states = self._wait_states(state)\n"),
+        (_P, "    def wait(self, state=None, timeout=None):\n",
+             "    @staticmethod\n    def _wait_states(state):\n\n"
+             "        if not state                  : return rps.FINAL\n"
+             "        if not isinstance(state, list): return [state]\n"
+             "        return state\n\n\n"
+             "    def wait(self, state=None, timeout=None):\n"),
+        (_P, "            if self.state in states:\n                return self.state\n\n", "")]),
+    dict(name='corpus r2: pending test in a static predicate, minimum by min([..] + [..])', edits=[
+        (_TM, "        check_state_val = rps._task_state_values[rps.FINAL[-1]]\n        for state in states:\n            check_state_val = min(check_state_val,\n                                  rps._task_state_values[state])\n",
+              "        check_state_val = min([rps._task_state_values[rps.FINAL[-1]]] +\n                              [rps._task_state_values[s] for s in states])\n"),
+        (_TM, "                if task.state not in rps.FINAL and \\\n" + _CMP,
+              "                if self._wait_pending(task, check_state_val):"),
+        (_TM, "    def wait_tasks(self, uids=None, state=None, timeout=None):\n",
+              "    @staticmethod\n    def _wait_pending(task, check_state_val):\n\n"
+              "        return task.state not in rps.FINAL and \\\n"
+              "               rps._task_state_values[task.state] < check_state_val\n\n\n"
+              "    def wait_tasks(self, uids=None, state=None, timeout=None):\n")]),
+    dict(name='corpus r3: wait_pilots returns through a conditional expression', edits=[
+        (_PM, "        if ret_list: return states\n        else       : return states[0]\n\n\n    # --------------------------------------------------------------------------\n    #\n    def _fail_missing_pilots(self):",
+              "        return states if ret_list else states[0]\n\n\n    # --------------------------------------------------------------------------\n    #\n    def _fail_missing_pilots(self):")]),
 ]
